@@ -29,6 +29,6 @@ a = s.index("| seed | what it needs to manifest | caught by own check | rule(s) 
 b = s.index("\nMissed", a)
 s = s[:a] + head + "\n".join(rows) + "\n" + s[b:]
 s = re.sub(r"\*\*\d+ of \d+ are caught by the targeted property's own check\.\*\*", "**%d of %d are caught by the targeted property's own check.**" % (own_n, len(rows)), s)
-s = re.sub(r"(\d+|__N__) changes were produced in (two|three|four|five|six|seven|eight) waves", "%d changes were produced in eight waves" % len(rows), s)
+s = re.sub(r"(\d+|__N__) changes were produced in (two|three|four|five|six|seven|eight|nine) waves", "%d changes were produced in nine waves" % len(rows), s)
 open(p, "w").write(s)
 print(own_n, "of", len(rows))
